@@ -433,6 +433,9 @@ def c04(tier, seed):
         # a builtin's redirection also holds inside $(...)
         {'line': 'alias zq=1; echo "[$(alias > f9)]"; cat f9', 'files': F, 'expect_stdout_prefix': '[]\n', 'expect_stdout_contains': 'zq', 'area': 'redirect:builtin:captured'},
         # several input redirections: the last one on the line is in effect
+        # no space on either side of `<` / `<<<`
+        {'line': 'cat<inf; cat< inf; wc -l<inf; cat<<<hi; cat<<< hi2; cat<inf|cat', 'files': dict(F, inf='FROMFILE\n'), 'expect_stdout': 'FROMFILE\nFROMFILE\n1\nhi\nhi2\nFROMFILE\n', 'area': 'redirect:stdin:no-space-in-front'},
+        {'line': 'cat<nonexistent-zz; echo rc=$?', 'files': F, 'expect_stdout': 'rc=1\n', 'area': 'redirect:stdin:no-space-in-front'},
         {'line': 'cat <<< word < inf; cat < inf <<< word2', 'files': dict(F, inf='FROMFILE\n'), 'expect_stdout': 'FROMFILE\nword2\n', 'area': 'redirect:stdin:last-wins'},
         {'line': 'alias nosuch-zz 2> f; echo --; cat f', 'files': F, 'expect_stdout_prefix': '--\n', 'expect_stdout_contains': 'nosuch-zz', 'area': 'redirect:builtin-stderr'},
         {'line': 'alias nosuch-zz > f 2>&1; echo --; cat f', 'files': F, 'expect_stdout_prefix': '--\n', 'expect_stdout_contains': 'nosuch-zz', 'area': 'redirect:builtin-dup'},
